@@ -581,7 +581,9 @@ def font_cases(draw, flavor=None):
         subtype = "Type3"
     classes.append("subtype:" + subtype)
     basefont = rnd.choice(F.STD14_LATIN) if flavor == "std14" else draw(st.sampled_from(
-        ["VerifFont", "ABCDEF+VerifFont", "Verif-Bold", "HelveticaNeue", "Arial-BoldMT", "Times"]))
+        ["VerifFont", "ABCDEF+VerifFont", "Verif-Bold", "HelveticaNeue", "Arial-BoldMT", "Times",
+         # subsets of fonts that merely carry a standard-14 name after their tag: their own /Widths count
+         "ABCDEF+Helvetica", "XYZABC+Times-Roman", "QWERTY+Courier-Bold"]))
     # ---- encoding
     ek = draw(st.sampled_from(["absent", "name", "dict", "dict", "dict-nobase"]))
     if flavor == "type3" and ek in ("absent", "name"):
